@@ -212,15 +212,14 @@ void WorkThread::threadProc()
             }
 
             item = popOneTask();    //! 从任务队列中取出优先级最高的任务
+            //! mark it as executing in the same critical section: no window in which the task is in neither set
+            if (item != nullptr)
+                d_->doing_tasks_token.insert(item->token);
         }
 
         //! 后面就是去执行任务，不需要再加锁了
         if (item != nullptr) {
             RECORD_SCOPE();
-            {
-                std::lock_guard<std::mutex> lg(d_->lock);
-                d_->doing_tasks_token.insert(item->token);
-            }
 
             LogDbg("thread pick task %u", item->token.id());
 
